@@ -52,6 +52,8 @@ package feeder
 //@ func FeedOnce
 //@   returns (out, err)
 //@   requires opts.Witness != nil && opts.LogSigVerifier != nil && opts.FetchCheckpoint != nil
+//@   ghostmodifies n_fo, fo_id, fo_origin, fo_v, fo_w
+//@   ensures[ghost] n_fo == old(n_fo) + 1 && fo_id == opts.LogID && fo_origin == opts.LogOrigin && fo_v == opts.LogSigVerifier && fo_w == opts.Witness
 //@   modifies n_ro, ro_err, n_gl, gl_err, gl_val, gl_h, n_glc, glc_id, glc_out, glc_err, n_fc, fc_out, fc_err
 //@   modifies n_wo, wo_err, wo_h, n_set, set_err, set_arg, set_h, n_close, close_h, n_commit, n_sign, sign_err, sign_out, sign_n, st_has, st_val, cnt
 //@   modifies n_upd, upd_id, upd_old, upd_cp, upd_proof, upd_out, upd_err, n_fp, fp_from_size, fp_from_hash, fp_to_size, fp_to_hash, fp_out, fp_err
@@ -60,3 +62,13 @@ package feeder
 //@   ensures[C13.9] fc_err != nil || !parsesAs(fc_out, opts.LogOrigin, opts.LogSigVerifier) ==> err != nil && n_upd == old(n_upd) && n_glc == old(n_glc) && out == nil
 //@   // what is submitted is byte-identical to what was fetched; success returns the witness's cosigned checkpoint
 //@   ensures[C13.9] err == nil ==> out == upd_out && upd_err == nil && upd_cp == fc_out && upd_id == opts.LogID
+
+// Run (ticker + select loop: outside the verifiable subset) is used by the feeders through this assumed contract,
+// which only records with which options the feed cycle is started.
+//@ func Run
+//@   assumed
+//@   returns (err)
+//@   requires opts.Witness != nil && opts.LogSigVerifier != nil && opts.FetchCheckpoint != nil
+//@   modifies heap
+//@   ghostmodifies n_fo, fo_id, fo_origin, fo_v, fo_w
+//@   ensures[ghost] n_fo == old(n_fo) + 1 && fo_id == opts.LogID && fo_origin == opts.LogOrigin && fo_v == opts.LogSigVerifier && fo_w == opts.Witness
